@@ -196,7 +196,77 @@ def c15(ctx):
     ctx.assumptions += ["the closed form Run is what the trace spec evaluates; MC_Streams proves it equal to the step-by-step state machine on the model's bounds"]
 
 
+XSDNS = "http://www.w3.org/2001/XMLSchema#"
+RDFNS = "http://www.w3.org/1999/02/22-rdf-syntax-ns#"
+
+
+def terms_universe():
+    a, ab, p = T_iri("http://ex/a"), T_iri("http://ex/ab"), T_iri("http://ex/p")
+    u = [
+        a, ab, T_iri("http://ex/a#b"), T_iri("http://ex/"), T_iri("x:y"), T_iri(XSDNS + "integer"), T_iri("http://ex/é"),
+        T_bn("b"), T_bn("b1"), T_bn("B"),
+        T_lit(""), T_lit("l"), T_lit("L"), T_lit("http://ex/a"), T_lit("l", XSDNS + "integer"), T_lit("1", XSDNS + "integer"), T_lit("01", XSDNS + "integer"),
+        T_lit("true", XSDNS + "boolean"), T_lit("1", XSDNS + "boolean"), T_lit("1e0", XSDNS + "double"), T_lit("1", XSDNS + "double"),
+        T_lit("l", RDFNS + "langStrinf"), T_lit("l", RDFNS + "langStrinh"), T_lit("l", RDFNS + "HTML"), T_lit("l", "http://ex/dt"),
+        T_lang("l", "en"), T_lang("l", "EN"), T_lang("l", "en-us"), T_lang("l", "en-US"), T_lang("l", "fr"), T_lang("m", "en"), T_lang("\U0001F600é", "en"),
+        T_lit("\U0001F600é"), T_lit("\uffff"), T_lit("a\u0301"),
+        T_var("x"), T_var("X"), T_var("b"),
+        T_triple(a, p, T_bn("b")), T_triple(a, p, T_lang("l", "en")), T_triple(a, p, T_lang("l", "EN")), T_triple(ab, p, T_bn("b")),
+        T_triple(T_triple(a, p, T_lang("l", "en")), p, T_lit("1", XSDNS + "integer")), T_triple(T_triple(a, p, T_lang("l", "eN")), p, T_lit("1", XSDNS + "integer")),
+        T_triple(a, p, T_var("x")),
+    ]
+    return u
+
+
+def c02(ctx):
+    binary = build()
+    u = terms_universe()
+    uf = os.path.join(ctx.gen, "universe.ndjson")
+    with open(uf, "w") as f:
+        for t in u:
+            f.write(json.dumps(t) + "\n")
+    # (1) the specification is lawful on the universe (equivalence, total order, Equal <=> eq, kind order, hash keys)
+    mc = Bg(lambda: model_check(ctx, "MC_Terms", workers=4, timeout=900, env={"UNIVERSE": uf}))
+    # (2)+(3) every ordered pair of universe terms in every implementation pair; random near-equal pairs
+    tr = os.path.join(ctx.traces, "terms.ndjson")
+    nrand = 600 if ctx.quick() else 20000
+    sv(binary, ["terms", "--universe", uf, "--rand", nrand, "--seed", ctx.seed, "--out", tr])
+    trace = read_trace(tr)
+    mism = trace_check(ctx, "Trace_Terms", tr, env={"UNIVERSE": uf})
+    bad = set()
+    cells = 0
+    for e in trace:
+        if e["ev"] == "Pair":
+            cells += len(e["eq"]) * 3 + len(e["seq"]) * 3 + len(e["xeq"])
+            ctx.distinct.add(h([e["a"], e["b"]]))
+        elif e["ev"] == "Conv":
+            cells += len(e["outs"])
+    for line, fields in mism:
+        e = trace[line - 1]
+        bad.add(line)
+        code, idx = fields[0], int(fields[1]) if len(fields) > 1 else 0
+        if e["ev"] == "Pair":
+            names = {"eq": "names", "cmp": "names", "hash": "names", "std-eq": "snames", "std-cmp": "snames", "std-hash": "snames", "partial-eq": "xnames"}[code]
+            who = e[names][idx - 1]
+            detail = "%s of %s vs %s in [%s] differs from Terms.tla" % (code, show_term(e["a"]), show_term(e["b"]), who)
+        elif e["ev"] == "Conv":
+            who = e["paths"][idx - 1]
+            detail = "conversion %s of %s yields %s" % (who, show_term(e["a"]), show_term(e["outs"][idx - 1]))
+        else:
+            who, detail = "panic", "panic: %s" % e.get("msg")
+        ctx.violations.append({"key": "%s/%s" % (code, who.replace(" ", "")), "detail": detail, "event": {k: e[k] for k in e if k in ("ev", "a", "b", "msg")}, "trace": tr, "line": line})
+    ctx.traces_validated += len(trace) - len(bad)
+    ctx.evaluations = cells
+    ctx.samples += [{"a": show_term(e["a"]), "b": show_term(e["b"]), "impl_pairs": len(e["eq"])} for e in trace[50:53] if e["ev"] == "Pair"]
+    mc.join()
+    ctx.rule = ("universe of %d terms (all kinds, case-variant tags, prefixes of one another, near-langString datatypes, nested quoted triples) x itself x all implementation pairs "
+                "(up to 21 holders per term: SimpleTerm owned/borrowed, &T, CmpTerm, ArcTerm, RcTerm, stash copies, GenericLiteral, NsTerm with 4 split points, Iri, IriRef, BnodeId, VarName, native str/i32/isize/usize/bool/f64); "
+                "%d random near-equal pairs in both orders; conversions through into_term/try_into_term/as_simple/from_triple/copy_term. evaluations = cells judged; distinct = term pairs" % (len(u), nrand))
+    ctx.exhaustive = True
+
+
 FAMILIES = {
+    "C02": c02,
     "C15": c15,
     "C11": c11,
     "C01": c01,
